@@ -292,7 +292,9 @@ impl WorldB {
             // arrives while the id is connected elsewhere, and a responding client does not send requests any more
             let last_emitted = self.ledger.iter().rev().find(|r| r.producer == Producer::Client { slot: j, epoch: s.epoch }).map(|r| r.ptype);
             // (a challenge that has reached the client counts: it answers with responses from its next update on)
-            if (last_emitted == Some(T_RESPONSE) || self.slot_challenge(j).is_some()) && self.pend_model.get(&s.addr).map(|p| p.0 != s.tid).unwrap_or(true) {
+            // ... and so does one that is still on its way to it
+            let challenge_in_flight = s.s2c.iter().any(|&ix| self.ledger[ix].ptype == T_CHALLENGE && !self.ledger[ix].certainly_bogus);
+            if (last_emitted == Some(T_RESPONSE) || self.slot_challenge(j).is_some() || challenge_in_flight) && self.pend_model.get(&s.addr).map(|p| p.0 != s.tid).unwrap_or(true) {
                 obs.count("epilogue.liveness_skipped_responding_without_half_open_entry");
                 continue;
             }
